@@ -649,9 +649,13 @@ def eval_type_writer(c, f, case):
             # `let (index, data) = match tpe { .. Type::Array(a) => (a.index_width, a.data_width) }`
             v = val(e["scrut"])
             for arm in e["arms"]:
-                if "guard" in arm:
-                    raise _Unknown("guard")
                 if bind(arm["pat"], v):
+                    if "guard" in arm:
+                        g_ = val(arm["guard"])
+                        if g_[0] != "bool":
+                            raise _Unknown("guard")
+                        if not g_[1]:
+                            continue
                     return val(arm["body"])
             raise _Unknown("no arm matches")
         if k == "if" and "else" in e:
@@ -763,9 +767,13 @@ def eval_type_writer(c, f, case):
                 return
             v = val(e["scrut"])
             for arm in e["arms"]:
-                if "guard" in arm:
-                    raise _Unknown("guard")
                 if bind(arm["pat"], v):
+                    if "guard" in arm:
+                        g_ = val(arm["guard"])
+                        if g_[0] != "bool":
+                            raise _Unknown("guard")
+                        if not g_[1]:
+                            continue
                     run_(arm["body"])
                     return
             raise _Unknown("no arm matches")
@@ -1116,6 +1124,13 @@ def identifiers(ctx, c):
         and table[("digit", False)] == {True}
     if accept is not None and not ok:
         why = "the per-character test accepts %s" % sorted("%s%s" % (k_, " (first)" if fi else "") for (k_, fi), r in table.items() if True in r)
+    # no way to answer `true` that bypasses the per-character test (e.g. `if id.bytes().all(|b| b.is_ascii_digit()) { return true }`)
+    scope = per_char[1] if per_char else None
+    early = [x for x in ix.nodes if x.get("k") == "return" and "e" in x and not (peel(x["e"]).get("k") == "lit" and peel(x["e"]).get("v") is False)
+             and not (scope is not None and contains(scope, x))
+             and (per_char is None or ix.precedes(x, per_char[1] if per_char[0] == "loop" else per_char[2]))]
+    ctx.inst("R05.5", "no-early-accept", not early, early[0]["sp"] if early else f["span"],
+             "is_simple_smt_identifier answers without testing every character: `%s` - a name accepted on this path is written unquoted whatever it contains" % (show(early[0])[:80] if early else ""))
     ctx.inst("R05.5", "every-character-tested", ok, f["span"], why)
     # the empty name: rejected before / besides the per-character test
     empties = [n for n in ix.nodes if n.get("k") == "mcall" and n["name"] == "is_empty" and is_local(n["recv"], p_id)]
